@@ -269,6 +269,53 @@ def run(tier):
                  % rel(f.short_loc(bad3[0])))
     elif incs:
         rep.ok("every ++i happens where i != p.im is known; i is written nowhere else")
+    # ---- R6 the user bracket is registered before any other point
+    # (BissectionAlgorithmBase::updateBounds builds its range from the first two points it is given: a point registered
+    #  before the user bounds can displace one of them, after which estimates are confined to another interval)
+    def atom6(f_, s):
+        n = f_.stmts[s]
+        if n["k"] == "CallExpr" and (n.get("callee") or "").endswith("isfinite") and n.get("args"):
+            t = f_.text(n["args"][0]).replace(" ", "")
+            if t in ("p.xmin0", "p.xmax0"):
+                return ("finite:" + t, False)
+        return None
+    bad6 = []
+    nub = [0]
+
+    def el6(st, b, i, e):
+        fx, reg = st
+        if "s" not in e:
+            return (st,)
+        s = e["s"]
+        n = f.stmts[s]
+        if n["k"] == "CXXMemberCallExpr" and (n.get("callee") or "").endswith("::updateBounds"):
+            a0 = f.text(n["args"][0]).replace(" ", "")
+            if a0 in ("p.xmin0", "p.xmax0"):
+                reg = tuple(sorted(set(reg) | {a0}))
+            else:
+                fxd = dict(fx)
+                for bnd in ("p.xmin0", "p.xmax0"):
+                    if bnd not in reg and fxd.get("finite:" + bnd) is not False:
+                        bad6.append((s, bnd))
+        return ((fx, reg),)
+
+    def ed6(st, b, succ, pol):
+        fx, reg = st
+        f2 = branch(f, b, pol, dict(fx), atom6)
+        if f2 is None:
+            return ()
+        return ((tuple(sorted(f2.items())), reg),)
+    forward(f, [((), ())], el6, ed6)
+    nub = len([1 for s_, n_ in f.stmts.items() if n_["k"] == "CXXMemberCallExpr" and (n_.get("callee") or "").endswith("::updateBounds")])
+    rep.count("updateBounds call sites", nub)
+    if bad6:
+        s_, bnd = bad6[0]
+        rep.fail("USER-BRACKET-FIRST@scalarNewtonRaphson", "%s: updateBounds(%s, ...) can run before the user bound %s has been "
+                 "registered: the bisection range is built from the first two points, so an initial guess outside the user bracket can "
+                 "displace a user bound and later estimates leave [xmin0, xmax0]"
+                 % (rel(f.short_loc(s_)), f.text(f.stmts[s_]["args"][0]), bnd))
+    else:
+        rep.ok("every updateBounds(x, fv) follows the registration of each finite user bound (p.xmin0, p.xmax0)")
     # ---- R5 decision tables
     bis = {g.qname.rsplit("::", 1)[-1]: g for g in funcs if g.parent is None and "BissectionAlgorithmBase" in g.qname}
     for need in ("iterate", "getNextRootEstimate", "updateBounds"):
@@ -418,6 +465,7 @@ def run(tier):
     rep.floor("return statements", 3)
     rep.floor("evaluations f(x) in the loop", 2)
     rep.floor("increments of i", 1)
+    rep.floor("updateBounds call sites", 3)
     rep.assumptions += ["the secant/midpoint values are inside the bracket in exact arithmetic only (rounding and NaN produced by the "
                         "secant formula itself are not decided)", "convergence of the iteration is not decided",
                         "observation (not a finding of the claimed clauses): a Newton step is taken when isfinite(fv) || dfv == 0"]
